@@ -306,7 +306,7 @@ def decide_site(ctx, o, fixed_env=None, call_ranges=None, assume=None):
     opq = {}
     ranges = {}
     for x in walk(v):
-        if x[0] == "call" and (x[1].startswith("fn:") or x[1].startswith("contract:")) and ty_of(x) in INT_BITS:
+        if x[0] == "call" and x[1].startswith(("fn:", "contract:", "log:")) and (ty_of(x) in INT_BITS or ty_of(x) == "bool"):
             if id(x) not in opq:
                 opq[id(x)] = (x, atom("$call%d" % len(opq), ty_of(x)))
                 for pre, rg in (call_ranges or {}).items():
